@@ -229,6 +229,12 @@ impl EncoderState {
     }
 }
 
+/// Verification hook: exposes the private header kernel to `verif_hooks`.
+#[cfg(any(woodpile_verif, woodpile_verif_hcobs_limits))]
+pub fn verif_encode_header(chunk_size: usize, iovec: &mut OwningIovec<'_>, backref: Backref) {
+    EncoderState::encode_header(chunk_size, iovec, backref)
+}
+
 #[cfg(test)]
 fn encode_with_test_params(bytes: &[u8]) -> Vec<u8> {
     let mut iovec = OwningIovec::new();
